@@ -18,17 +18,19 @@ VARIABLE c
 States == {"fresh", "sametype", "othertype"}
 Kinds  == {"Create", "Upgrade", "Toggle"}
 
-TmCases  == [fam : {"client"}, ty : {"tm"}, kind : Kinds, st : States, f : {"valid", "wrongcons", "nilcons", "zeroheight", "notrust", "nospecs"}]
+(* "expired": a client of the same type exists and the proposal's trusting period makes its earliest consensus state count *)
+(* as expired when the proposal is executed (the pruning branch of UpgradeState / update)                                    *)
+TmCases  == [fam : {"client"}, ty : {"tm"}, kind : Kinds, st : States \cup {"expired"}, f : {"valid", "wrongcons", "nilcons", "zeroheight", "notrust", "nospecs"}]
 TssCases == [fam : {"client"}, ty : {"tss"}, kind : Kinds, st : States, f : {"valid", "wrongcons", "nilcons", "badaddr", "nopubkey"}]
-BscCases == [fam : {"client"}, ty : {"bsc"}, kind : Kinds, st : {"fresh", "sametype"},
+BscCases == [fam : {"client"}, ty : {"bsc"}, kind : Kinds, st : {"fresh", "sametype", "expired"},
              epoch : {"0", "1", "4"}, height : {"zero", "epochmult", "other"}, extra : {"short", "novals", "vals", "odd"},
              sig : {"good", "garbage"}, shape : {"ok", "longbloom", "longnonce", "nodiff", "wrongcons", "novalidators"}]
-EthCases == [fam : {"client"}, ty : {"eth"}, kind : Kinds, st : {"fresh", "sametype"},
+EthCases == [fam : {"client"}, ty : {"eth"}, kind : Kinds, st : {"fresh", "sametype", "expired"},
              f : {"valid", "nodiff", "gasover", "wrongcons", "nilcons", "longbloom", "bigextra", "nobasefee", "zeroheight"}]
 
 (* parameter-change proposals: the JSON value a proposal carries *)
 RvCases == [fam : {"param"}, sub : {"rvesting"}, list : {"empty", "one", "two", "dup", "three"}, amount : {"present", "absent", "null", "negative", "nonnumeric", "zero", "huge"},
-            denom : {"lower", "upper", "empty", "absent"}, enable : {"true", "false", "garbage"}, pool : {"empty", "small"}]
+            denom : {"lower", "upper", "empty", "absent", "short", "badchar"}, enable : {"true", "false", "garbage"}, pool : {"empty", "small"}]
 AggParamCases == [fam : {"param"}, sub : {"aggregate"}, key : {"EnableAggregate", "EnableEVMHook", "Unknown"}, val : {"true", "false", "garbage", "null"}]
 
 AggCases == [fam : {"agg"}, p : {"RegisterCoin"}, f : {"valid", "evmdenom", "nosupply", "bigexponent", "nounits", "ibcnochannel"}]
